@@ -73,13 +73,19 @@ var ctrlOrder = []string{"pause", "pausewait", "resume", "stop", "waitstop", "re
 func genSched(t *rapid.T, pf *Profile, thorough bool) Sched {
 	kinds := pf.SchedKinds
 	if len(kinds) == 0 {
-		kinds = []string{"dev", "dev", "pct", "rw"}
+		kinds = []string{"dev", "dev", "pct", "rw", "pctl"}
 	}
 	switch pick(t, "sched", kinds) {
 	case "base":
 		return Sched{Strategy: "base"}
 	case "pct":
 		return Sched{Strategy: "pct", Seed: rapid.Uint64Range(1, 1<<40).Draw(t, "pctseed"), Depth: rapid.IntRange(1, 5).Draw(t, "depth"), Span: pick(t, "span", []int{100, 300, 800, 2000})}
+	case "pctl":
+		sc := Sched{Strategy: "pctl", Seed: rapid.Uint64Range(1, 1<<40).Draw(t, "pctlseed")}
+		for i := 0; i < rapid.IntRange(1, 3).Draw(t, "nmarks"); i++ {
+			sc.Devs = append(sc.Devs, [2]int{rapid.IntRange(0, len(Labels)-1).Draw(t, "label"), rapid.IntRange(0, 6).Draw(t, "occurrence")})
+		}
+		return sc
 	case "rw":
 		return Sched{Strategy: "rw", Seed: rapid.Uint64Range(1, 1<<40).Draw(t, "rwseed"), Den: pick(t, "den", []int{2, 3, 5, 10, 30}), ClockDen: pick(t, "clockden", []int{0, 20, 50, 200})}
 	default:
